@@ -24,8 +24,8 @@ SPEC = dict(
                  'g++ 12 ASan/UBSan/LSan and valgrind memcheck report what they claim to report'],
     legs=[
         Leg('regress', 'h_isolate', 'asan', opts={'mode': 'regress'}, quick=1, thorough=1, workers=1, leaks=True, min_cases=1),
-        Leg('isolate', 'h_isolate', 'asan', opts={'mode': 'isolate'}, quick=1600, thorough=100000, workers=16, leaks=True),
-        Leg('cut', 'h_isolate', 'asan', opts={'mode': 'cut'}, quick=36000, thorough=1200000, workers=16, leaks=True),
+        Leg('isolate', 'h_isolate', 'asan', opts={'mode': 'isolate'}, quick=1600, thorough=40000, workers=16, leaks=True),
+        Leg('cut', 'h_isolate', 'asan', opts={'mode': 'cut'}, quick=36000, thorough=900000, workers=16, leaks=True),
         Leg('memcheck_isolate', 'h_isolate', 'plain', opts={'mode': 'isolate'}, quick=16, thorough=640, workers=16, valgrind=True),
         Leg('memcheck_cut', 'h_isolate', 'plain', opts={'mode': 'cut'}, quick=640, thorough=25600, workers=16, valgrind=True),
     ],
